@@ -74,17 +74,21 @@ def _measure_job(args):
                 rendered_vals.add(val)
                 cases.append(("layout_render", [FLAGS, L.env_enc(cwidth), L.enc_opts({}), val, tree], impl, "at-" + which, None))
             if val >= sm:
-                dom = L.domain(spec, {}, console)
+                # the same `Dom` as C01 (Props/C09.lean's render_at_max_fits / render_at_min_fits quantify over it), at the width rendered at
+                dom = L.domain(spec, {}, console, val)
                 note("render-at-%s:%s" % (which, dom.split(":")[0]))
                 if dom == "out" or dom.startswith("floor:"):
                     continue
+                # 'open' = outside Dom only through a condition Props/C01.lean marks NOT DISCHARGED: evaluated under its own site name
+                site = "render at measured " + which + (" (outside Dom: condition not discharged, no counterexample known)" if dom.startswith("open") else "")
                 if out.startswith("err:"):
-                    checks.append((False, "render at measured " + which, (spec, cwidth, w, val), f"rendering raised {out[4:]}", None))
+                    checks.append((False, site, (spec, cwidth, w, val), f"rendering raised {out[4:]}", None))
                     continue
                 lw = L.line_widths(out)
                 ok = all(x <= val for x in lw)
-                checks.append((ok, "render at measured " + which, (spec, cwidth, w, val) if not ok else None,
-                               f"measured {which} {val} (available {w}, structural minimum {sm}) but a line is {max(lw)} cells wide", classify(dom) if not ok else None))
+                slug = "progressbar-no-newline" if dom in ("f23", "open:f23") else None
+                checks.append((ok, site, (spec, cwidth, w, val) if not ok else None,
+                               f"measured {which} {val} (available {w}, structural minimum {sm}) but a line is {max(lw)} cells wide", slug if not ok else None))
             else:
                 note("render-at-%s:below-smin" % which)
     return {"cases": cases, "checks": checks, "notes": notes}
